@@ -340,3 +340,22 @@ def zero_rows(rep, res, entry):
         rep.holds("R-ZERO", "all-zero rows never reach the chromatic reduction", where=ev.loc, construct=ev.text(), entry=entry,
                   config=res.config, msg="zero rows were removed or replaced before the reduction")
     return n
+
+
+def exact_triangulation(rep, res, entry):
+    """the membership decision rests on the triangulation of the points AS GIVEN: qhull's joggle option (QJ) perturbs the input, so
+    the triangulation of a flat vertex set becomes a sliver that does not contain the points of the gamut's own plane"""
+    for ev in res.events("qhull"):
+        opts = (ev.d.get("kws") or {}).get("qhull_options")
+        if opts is None and len(ev.d.get("args") or ()) > 3:
+            opts = ev.d["args"][3]
+        if opts is None:
+            continue
+        if opts.known and isinstance(opts.const, str) and "QJ" in opts.const:
+            rep.violated("R-VALUE", "membership is decided on the un-perturbed vertex set", where=ev.loc, construct=ev.text(), entry=entry,
+                         config=res.config,
+                         msg="qhull is asked to joggle its input (QJ): for a flat vertex set (fewer independent sources than receptors) the "
+                             "joggled triangulation is a sliver of thickness ~1e-11 and find_simplex rejects every point of the gamut's own plane")
+        elif opts.known or "qhull_options" in opts.flat().data:
+            rep.holds("R-VALUE", "membership is decided on the un-perturbed vertex set", where=ev.loc, construct=ev.text(), entry=entry,
+                      config=res.config, msg="options are the caller's (default None)")
